@@ -98,8 +98,9 @@ class Tokens(object):
         if tok.startswith("#"):
             # a JSON value that is not a string (number, boolean): "#7" is 7
             v = json.loads(tok[1:])
-            text = ("1" if v else "0") if isinstance(v, bool) else ("%.15g" % v if isinstance(v, float) else str(v))
-            self.alias.setdefault(kind, {})[text] = tok
+            if isinstance(v, (bool, int, float)):
+                text = ("1" if v else "0") if isinstance(v, bool) else ("%.15g" % v if isinstance(v, float) else str(v))
+                self.alias.setdefault(kind, {})[text] = tok
             return v
         if tok not in self.fwd[kind]:
             if (kind == "name" and tok.isdigit()) or kind == "mood":
